@@ -206,6 +206,10 @@ NEGATIVES = [
     ("value-zero-push", ["mark_type 1 1 t", "X", "mark_push 1 0"], None),
     ("undefined-type-set", ["mark_type 1 0 t", "X", "mark_set 2 5"], None),
     ("undefined-type-push", ["mark_type 1 1 t", "X", "mark_push 7 5"], None),
+    # no mark type defined by anybody in the whole trace
+    ("no-type-at-all-set", ["X", "mark_set 2 5"], None),
+    ("no-type-at-all-push", ["X", "mark_push 2 5"], None),
+    ("no-type-at-all-two-threads", ["X", "mark_set 1 7"], ["X"]),
     ("push-on-single", ["mark_type 1 0 t", "X", "mark_push 1 5"], None),
     ("set-on-stack", ["mark_type 1 1 t", "X", "mark_set 1 5"], None),
     ("type-redefined-in-thread", ["mark_type 1 0 t", "mark_type 1 0 t", "X"], None),
